@@ -30,7 +30,7 @@ CLAIMS["C03"] = ("other", "interprocedural taint (unprotected guards) + must-pas
     "touch of the retired object or its lock (this is what makes collect/FromIterator safe); (M2) at each of the 25 retire sites an unlink "
     "write on the object's own container precedes the retire on every value-flow path; (M3) immediate frees only on private/exclusively "
     "owned objects; (M4) copy-loop/retire-loop agreement; (M6) the forwarding marker is handed out only after next_table is set. Each is a necessary condition: breaking one yields a concrete use-after-free. "
-    "A tree bin retired whole does not also have its nodes' values retired one by one (M9); a removed or replaced value is retired exactly once (M10 = O4). Not decided: that references stay *unchanged*, the collector's own correctness, value-level aliasing beyond copies. Links of nodes private to the body do not count as unlinks (M2).",
+    "A tree bin retired whole does not also have its nodes' values retired one by one (M9); a removed or replaced value is retired exactly once (M10 = O4). Not decided: that references stay *unchanged*, the collector's own correctness, value-level aliasing beyond copies. Links of nodes private to the body do not count as unlinks (M2). Every exported guard-taking function checks the guard's collector before use, so nothing is retired into a foreign collector (M11 = G1-G3).",
     "DESIGN.md §4 C03", TRUST)
 
 CLAIMS["C07"] = ("other", "null-check contradiction rule (value-chain path search) + private-target rule over MIR",
@@ -52,7 +52,7 @@ CLAIMS["C14"] = ("other", "affine abstract interpretation over MIR + who-may-cal
     "pointer is only ever replaced by a fresh or doubled table; the constants are as stated; capacity 0 allocates nothing; reserve(additional) presizes for len() + additional; "
     "treeify_bin (which doubles a small table) is called only by an inserting operation; add_count leaves its resize loop only with count < size_ctl or for a reason "
     "independent of the count and of the resize hint (so no insert returns with the count at or above the threshold for a removal to act on). The bin length put reports is the number of nodes walked (K11). Not decided: "
-    "'holds c well-distributed entries' (hash distribution) and power-of-two lengths (Q3, under C05). The count compared with the threshold is adjusted exactly once per link / unlink (K12 = Q1).",
+    "'holds c well-distributed entries' (hash distribution) and power-of-two lengths (Q3, under C05). The count compared with the threshold is adjusted exactly once per link / unlink (K12 = Q1). Every add_count with a positive delta passes Some(hint) (K13 = Z17).",
     "DESIGN.md §4 C14", TRUST + " x >> k is modelled as x/2^k (exact for the power-of-two lengths it is applied to).")
 
 CLAIMS["C19"] = ("other", "panic-site reachability + delegation (who-may-call) rules over MIR, features serde,rayon",
@@ -118,7 +118,7 @@ CLAIMS["C10"] = ("other", "MIR path rules (edge dominance, must-pass-through) + 
     "next_table, swap table, retire old, store 3/4 threshold) is gated by it, ordered and complete; the next table is exactly twice as long; "
     "initiation is guarded by len < 2^30; the size_ctl bit layout holds for the evaluated constants; every won initiator/helper ticket leads "
     "to transfer and transfer gives the ticket back on every exit; every joining site refuses to join on the same five atoms (sign, same generation stamp, full, finishing, no strides left); stride claiming makes progress (fresh positive index, strictly lower new value, index steps by one); the elected finisher sweeps the whole old table (i := len, decrement loop re-entered) before publishing; a bin is migrated only under its lock after re-validating the head; an initiator's table belongs to the size_ctl generation of its ticket. Not "
-    "decided: 'every old bin migrated exactly once' and non-overlap of generations over all schedules (needs interleaving semantics). An old bin is marked as forwarded only after both halves are in the new table (Z14 = L3). add_count re-reads the count after every resize it took part in (Z16).",
+    "decided: 'every old bin migrated exactly once' and non-overlap of generations over all schedules (needs interleaving semantics). An old bin is marked as forwarded only after both halves are in the new table (Z14 = L3). add_count re-reads the count after every resize it took part in (Z16). Every add_count with a positive delta passes Some(hint), so an insert always reaches the threshold test (Z17).",
     "DESIGN.md §4 C10", TRUST)
 CLAIMS["C11"] = ("other", "lock-order graph over the resolved call graph + acquire/release pairing and park-protocol path rules",
     "Clauses; fair-schedule liveness itself is NOT decided. Decided: at most one bin lock is ever held (no acquisition reachable through "
